@@ -798,6 +798,11 @@ impl<'a> Lexer<'a> {
         // need to relook at column count when deep diving into line feed, form feed, carriage return parsing
         if c != '\n' {
             self.text_column += 1;
+        } else if self.state == LexingState::CharList || self.state == LexingState::ByteList {
+            // a new line inside a char or byte list is part of the literal,
+            // what follows it is still on the next line
+            self.text_column = 0;
+            self.text_row += 1;
         }
 
         next_token
